@@ -182,6 +182,21 @@ func (s *Solver) Check() Result {
 	return r
 }
 
+// CheckPatient is Check for queries whose answer decides an assertion: an
+// "unknown" that is only a timeout (a loaded machine) is retried once with six
+// times the per-query limit before it is accepted as undecided.
+func (s *Solver) CheckPatient() Result {
+	r := s.Check()
+	if r != Unknown || s.dead || s.errScope || s.Kind == "cvc5" || s.Timeout <= 0 {
+		return r
+	}
+	s.send(fmt.Sprintf("(set-option :timeout %d)\n", s.Timeout*6))
+	s.Queries.Unknown-- // the first attempt is superseded by the retry
+	r = s.Check()
+	s.send(fmt.Sprintf("(set-option :timeout %d)\n", s.Timeout))
+	return r
+}
+
 // CheckWith checks the stack plus the extra assumption inside a temporary scope.
 func (s *Solver) CheckWith(extra *Term) Result {
 	if extra.IsTrue() {
